@@ -98,9 +98,12 @@ let abstract_with (known0 : string list option) (max : Model.z) (evs : string li
           (split_on '+' (String.sub spec (i + 1) (String.length spec - i - 1)))
     | None -> [] in
   let fed : (string * frame_info) list ref = ref [] in     (* nonce (decimal) -> request frame *)
+  (* operations that have returned: a context ended AFTER its operation returned is no cancellation of that operation *)
+  let returned : string list ref = ref [] in
   List.concat_map (fun e ->
     match String.split_on_char '/' e with
     | "ret" :: c :: "nil" :: buf :: _ ->
+        returned := c :: !returned;
         let r = (try nonce_of (parse buf) with _ -> zc (-1)) in
         [ ARet (id_num c, ROk); AResult (id_num c, r) ]
     | [ "feed"; h ] ->
@@ -146,8 +149,8 @@ let abstract_with (known0 : string list option) (max : Model.z) (evs : string li
     | [ "write"; h ] -> Some (AWrite (frame_info_of max infl (bytes_of_hex h)))
     | [ "write"; h; "partial" ] -> None
     | [ "writefail"; h ] -> Some (AWriteFail (frame_info_of max infl (bytes_of_hex h)))
-    | "ret" :: c :: cls :: _ -> Some (ARet (id_num c, rclass_of cls))
-    | [ "cancel"; c ] -> Some (ACtx (id_num c))
+    | "ret" :: c :: cls :: _ -> returned := c :: !returned; Some (ARet (id_num c, rclass_of cls))
+    | [ "cancel"; c ] -> if List.mem c !returned then None else Some (ACtx (id_num c))
     | [ "feed"; h ] -> None   (* handled below: one event per frame in the fed bytes *)
     | "hstart" :: h :: _ :: a :: _ ->
         let nn = (try nonce_of (parse a) with _ -> zc (-1)) in
